@@ -261,7 +261,11 @@ class Lowering:
         self.queue.append(d)
         return c
 
-    def extern_for(self, q):
+    def extern_for(self, q, ftype=None):
+        if ftype is not None:
+            for pat, c in self.extern.items():
+                if '|' in pat and re.fullmatch(pat, q + '|' + ftype):
+                    return c
         for pat, c in self.extern.items():
             if re.fullmatch(pat, q):
                 return c
@@ -522,7 +526,7 @@ class Lowering:
 
     def param_list(self, d, fs):
         ps = []
-        if d['kind'] in ('CXXMethodDecl', 'CXXConversionDecl') and d.get('storageClass') != 'static':
+        if d['kind'] in ('CXXMethodDecl', 'CXXConversionDecl', 'CXXDestructorDecl') and d.get('storageClass') != 'static':
             cls = self.class_of(d)
             ct = self.record_cname(cls)
             const = 'const ' if re.search(r'\)\s*const', d['type']['qualType']) else ''
@@ -607,7 +611,8 @@ class Lowering:
                 lines += ctx.pre + ['*self = %s;' % e]
             elif 'anyInit' in k:
                 fld = k['anyInit']
-                e = self.expr(init, ctx)
+                ft = (fld.get('type') or {}).get('qualType', '')
+                e = self.addr_of(init, ctx) if ft.strip().endswith('&') else self.expr(init, ctx)
                 if fld.get('name'):
                     lines += ctx.pre + ['self->%s = %s;' % (fld['name'], e)]
                 else:
@@ -646,10 +651,45 @@ class Lowering:
 
     def s_CompoundStmt(self, n, fs):
         out = ['{']
+        dtors = []
         for c in kids(n):
+            if c.get('kind') == 'DeclStmt':
+                for d in kids(c):
+                    if d.get('kind') == 'VarDecl':
+                        dt = self.user_dtor(ty(d))
+                        if dt is not None:
+                            dtors.append((d['name'], dt))
+            if dtors and self.has_jump(c):
+                raise Unsupported('scope with a destructible local (%s) contains return/break/continue/goto at %s'
+                                  % (dtors[0][0], self.tu.where(c)))
             out += self.indent(self.stmt(c, fs), 1)
+        for name, dt in reversed(dtors):
+            cn = self.cname_for(dt)
+            self.note_call(dt)
+            out += self.indent(['%s(&%s); /* destructor at end of scope */' % (cn, name)], 1)
         out.append('}')
         return out
+
+    def has_jump(self, n):
+        if not isinstance(n, dict):
+            return False
+        if n.get('kind') in ('ReturnStmt', 'BreakStmt', 'ContinueStmt', 'GotoStmt'):
+            return True
+        if n.get('kind') in ('LambdaExpr',):
+            return False
+        return any(self.has_jump(k) for k in kids(n))
+
+    def user_dtor(self, t):
+        t = self.strip_cvref(t) if not t.strip().endswith('&') else None
+        if t is None or t.endswith('*'):
+            return None
+        rec = self.find_record(t)
+        if rec is None:
+            return None
+        for k in kids(rec):
+            if k.get('kind') == 'CXXDestructorDecl' and not k.get('isImplicit') and not k.get('explicitlyDefaulted'):
+                return self.tu.definition(k)
+        return None
 
     def s_NullStmt(self, n, fs):
         return [';']
@@ -981,7 +1021,7 @@ class Lowering:
         decl = self.tu.node(rd['id'])
         d = self.tu.definition(decl)
         q = self.tu.qualname(d)
-        ext = self.extern_for(q)
+        ext = self.extern_for(q, d['type']['qualType'])
         if ext:
             if q not in [e['cxx'] for e in self.report['externals']]:
                 self.report['externals'].append({'cxx': q, 'c': self.ext_name(ext)})
@@ -995,6 +1035,13 @@ class Lowering:
         if md is not None and md.get('kind') in ('CXXMethodDecl', 'CXXConversionDecl', 'CXXDestructorDecl'):
             raise Unsupported('bound member function outside a call')
         b = self.expr(base, ctx)
+        if md is not None and md.get('kind') == 'FieldDecl' and ty(md).strip().endswith('&'):
+            # member of reference type: stored as a pointer, used as the referent
+            inner = ('%s->%s' % (b, name)) if n.get('isArrow') else ('%s.%s' % (b, name))
+            m2 = re.fullmatch(r'\(\*([A-Za-z_]\w*)\)', b)
+            if m2 and not n.get('isArrow'):
+                inner = '%s->%s' % (m2.group(1), name)
+            return '(*%s)' % inner
         if not name:
             return b if not n.get('isArrow') else '(*%s)' % b   # anonymous struct/union hop
         if n.get('isArrow'):
@@ -1119,6 +1166,11 @@ class Lowering:
         raise Unsupported('implicit cast kind %s' % ck)
 
     def derived_to_base(self, n, sub, ctx):
+        try:
+            if self.ctype(ty(n)).replace('const ', '') == self.ctype(ty(sub)).replace('const ', ''):
+                return self.expr(sub, ctx)      # both classes are modelled by one C type
+        except Unsupported:
+            pass
         path = n.get('path') or []
         if len(path) != 1:
             raise Unsupported('derived-to-base path of length %d' % len(path))
@@ -1234,6 +1286,7 @@ class Lowering:
         rec = self.find_record(self.strip_cvref(t))
         ext = self.extern_for(self.strip_cvref(t) + '::' + 'ctor|' + ctor_t)
         if ext:
+            args = [a for a in args if a.get('kind') != 'CXXDefaultArgExpr']   # defaults are the model's business
             return '%s(%s)' % (ext, ', '.join(self.call_args_for_types(args, self.split_args(ctor_t[ctor_t.index('(') + 1:ctor_t.rindex(')')]), ctx)))
         if rec is None:
             raise Unsupported('construction of unknown record %s' % t)
@@ -1382,7 +1435,7 @@ class Lowering:
 
     def this_by_value(self, decl):
         d = self.tu.definition(decl)
-        ext = self.extern_for(self.tu.qualname(d))
+        ext = self.extern_for(self.tu.qualname(d), d['type']['qualType'])
         return ext is not None and self.ext_byval(ext)
 
     def e_CXXMemberCallExpr(self, n, ctx, discard=False):
@@ -1461,11 +1514,12 @@ class Lowering:
                 raise Unsupported('virtual call to %s needs a model (cfg.virtual)' % q)
             if q not in self.report['virtual_calls']:
                 self.report['virtual_calls'].append(q)
-        ext = vm or self.extern_for(q)
+        ext = vm or self.extern_for(q, d['type']['qualType'])
         fq = d['type'].get('desugaredQualType') or d['type']['qualType']
         if ext:
             if not vm and q not in [e['cxx'] for e in self.report['externals']]:
                 self.report['externals'].append({'cxx': q, 'c': self.ext_name(ext)})
+            args = [a for a in args if a.get('kind') != 'CXXDefaultArgExpr']
             if self.ext_byval(ext):
                 argv = ([this] if this is not None else []) + [self.expr(a, ctx) for a in args]
             else:
